@@ -45,7 +45,8 @@ def check_job(job):
     t = W.samples_table(rows, inst=inst, variant=variant, fracs=fracs)
     out = {'labels': [], 'obs': []}
     try:
-        res = W.process(t, 'none', inst)
+        # one job in three also draws the per-sample figures (what the figures are drawn from is the result itself)
+        res = W.process(t, 'none', inst, plot_dir=('plots_%d_%d' % (os.getpid(), idx)) if idx % 3 == 0 else None)
     except Exception as e:  # noqa
         return {'labels': [('aborted/' + type(e).__name__, -1)], 'obs': [str(e)[:100]]}
     spec = xw.INSTR[inst]
